@@ -3,8 +3,11 @@
    page), each closed by `exact <lemma>`, non-vacuity examples and the axiom audit.
    Balances, weights and amounts range over all of N; the only bound used is that what
    the contract holds of a denom fits u128 (C15_refused_iff). *)
-From LP Require Import Splits Consts SplitsProofs.
+From LP Require Import Splits SplitsMigrate Consts SplitsProofs SplitsMigrateProofs.
 Import ListNotations.
+From Coq Require Import String.
+(* String.length would shadow the list length the statements speak about *)
+Local Notation length := List.length.
 Local Open Scope N_scope.
 
 (* who may distribute: the admin when one is set, otherwise any group member
@@ -205,7 +208,65 @@ Example C15_ex_25_members_accepted :
   is_ok (distribute (mkWorld 5 (Some 1) None (map (fun i => mkMember (100 + N.of_nat i) 1) (seq 0 25)) [3] [(5, 3, 1000)]) 1 None) = true.
 Proof. vm_compute. reflexivity. Qed.
 
+(* ---- migrations of the splits contract interleaved with everything else ----
+   A migration (only the wasm-level admin can send one; the stored cw2 identity must be
+   "crates.io:sg-splits" and the stored version a semantic version not newer than 3.16.0)
+   moves no funds and leaves the group, the splits admin and every balance as they were. *)
+Theorem C15_migrate_changes_nothing : forall wa who name ver w w',
+  splits_migrate wa who name ver w = Ok w' ->
+  w' = w /\ w_bank w' = w_bank w /\ w_members w' = w_members w /\ w_admin w' = w_admin w /\
+  w_gadmin w' = w_gadmin w /\ w_self w' = w_self w /\ w_denoms w' = w_denoms w.
+Proof. exact splits_migrate_frame_fields. Qed.
+
+Theorem C15_migrate_ok_iff : forall wa who name ver w,
+  is_ok (splits_migrate wa who name ver w) = true <->
+  who = wa /\ name = "crates.io:sg-splits"%string /\
+  exists v, Semver.parse_version ver = Some v /\ Semver.ver_ltb (3, 16, 0) v = false.
+Proof. exact splits_migrate_ok_iff. Qed.
+
+Theorem C15_migrations_only_identity : forall wa ms w,
+  xrun wa w (map (fun m => XMigrate (fst (fst m)) (snd (fst m)) (snd m)) ms) = w.
+Proof. exact migrations_only_identity. Qed.
+
+Theorem C15_wellformed_forever_with_migrations : forall wa xs w, wf_world w -> wf_world (xrun wa w xs).
+Proof. exact xrun_wf. Qed.
+
+(* the same exactness after any sequence of deposits, group changes, admin changes,
+   distributions /\ migrations (accepted or refused, by anyone, from any stored identity) *)
+Theorem C15_repeat_exact_with_migrations : forall wa self admin gadmin ms g xs s dl w',
+  group_instantiate ms = Ok g ->
+  let w := xrun wa (init_world self admin gadmin g) xs in
+  step w (Distribute s dl) = Ok w' ->
+  (forall d, count d (requested w dl) <= 1) ->
+  let W := total_weight (w_members w) in
+  W <> 0 /\ (1 <= length (w_members w) <= 25)%nat /\ can_distribute w s = true /\
+  forall d,
+    let k := if existsb (N.eqb d) (requested w dl) then held w d / W else 0 in
+    (forall m, In m (w_members w) -> m_addr m <> w_self w ->
+       bal (w_bank w') (m_addr m) d = bal (w_bank w) (m_addr m) d + m_weight m * k) /\
+    (forall a, is_member a (w_members w) = false -> a <> w_self w ->
+       bal (w_bank w') a d = bal (w_bank w) a d) /\
+    bal (w_bank w') (w_self w) d + W * k = held w d + weight_of (w_members w) (w_self w) * k /\
+    W * k <= held w d /\
+    (k <> 0 -> held w d - W * k = held w d mod W /\ held w d mod W < W).
+Proof. exact repeat_exact_x. Qed.
+
+Example C15_ex_migrate_then_distribute :
+  exists w', step (xrun 1 ex_world [XMigrate 1 "crates.io:sg-splits" "3.9.0"; XMigrate 3 "crates.io:sg-splits" "3.9.0";
+                                    XMigrate 1 "crates.io:sg-minter" "3.9.0"; XMigrate 1 "crates.io:sg-splits" "3.17.0"]%string)
+                  (Distribute 1 (Some [3])) = Ok w' /\ bal (w_bank w') 5 3 = 99 /\ bal (w_bank w') 101 3 = 500.
+Proof. eexists. split; [vm_compute; reflexivity|]. split; vm_compute; reflexivity. Qed.
+Example C15_ex_migrate_refusals :
+  is_ok (splits_migrate 1 1 "crates.io:sg-splits" "3.16.0" ex_world) = true /\
+  is_ok (splits_migrate 1 3 "crates.io:sg-splits" "3.16.0" ex_world) = false /\
+  is_ok (splits_migrate 1 1 "crates.io:sg-splits" "3.16.1" ex_world) = false /\
+  is_ok (splits_migrate 1 1 "crates.io:sg-minter" "3.0.0" ex_world) = false.
+Proof. repeat split; vm_compute; reflexivity. Qed.
+
 Print Assumptions C15_entitled.
+Print Assumptions C15_migrate_changes_nothing.
+Print Assumptions C15_migrate_ok_iff.
+Print Assumptions C15_repeat_exact_with_migrations.
 Print Assumptions C15_messages_exact.
 Print Assumptions C15_paid_sums.
 Print Assumptions C15_amounts_bounded.
